@@ -109,6 +109,7 @@ func NewExplorer(p *Program, s *sym.Solver) *Explorer {
 	registerOracle(m)
 	registerFrame(m)
 	registerOracleScalars(m)
+	registerReentry(m)
 	return &Explorer{P: p, M: m, S: s, MaxPaths: 200000, MaxViol: 3, SampleKeep: 3}
 }
 
